@@ -11,6 +11,20 @@ def _call(op, arrs):
     return r, us
 
 
+def _call_views(op, arrs, rng):
+    """the same operands as non-contiguous views: strided direction axis, strided last axis or swapped memory order of the last two axes"""
+    a = native.algopy(); U = a.UTPM
+    us = []
+    for x in arrs:
+        mode = rng.choice(['p', 'last', 'swap'] if x.ndim >= 4 else (['p', 'last'] if x.ndim == 3 else ['p']))
+        if mode == 'p': big = numpy.zeros((x.shape[0], 2 * x.shape[1]) + x.shape[2:], dtype=x.dtype); v = big[:, ::2]
+        elif mode == 'last': big = numpy.zeros(x.shape[:-1] + (2 * x.shape[-1],), dtype=x.dtype); v = big[..., ::2]
+        else: big = numpy.zeros(x.shape[:-2] + (x.shape[-1], x.shape[-2]), dtype=x.dtype); v = numpy.swapaxes(big, -1, -2)
+        v[...] = x; us.append(U(v))
+    with numpy.errstate(all='ignore'): r = op.f(*us)
+    return r, us
+
+
 def _mp_oracle(op, col):
     import mpmath as mp
     mp.mp.dps = 40
@@ -73,6 +87,16 @@ def run(rng, tier, want=('C01', 'C10', 'C11', 'C12', 'C13', 'C14')):
                     yield 'C10', op.name, case, 'returns %s, not a Taylor polynomial' % type(r).__name__; continue
                 if not numpy.all(numpy.isfinite(r.data)): continue          # outside the domain: no verdict
                 scale = max(1.0, float(numpy.abs(r.data).max()))
+                # ---- memory layout must not matter (metamorphic): the same coefficients handed over as NON-CONTIGUOUS arrays give the same result
+                ltag = {'elementwise': 'C01', 'elementwise2': 'C01', 'shape': 'C13', 'linalg': 'C10'}.get(op.kind)
+                if ltag in want and op.kind != 'frame-only':
+                    try:
+                        r_nc, _ = _call_views(op, arrs, rng)
+                        ok = isinstance(r_nc, U) and r_nc.data.shape == r.data.shape and numpy.array_equal(r_nc.data, r.data, equal_nan=True)
+                        if not ok and isinstance(r_nc, U) and r_nc.data.shape == r.data.shape: ok = numpy.allclose(r_nc.data, r.data, rtol=1e-13, atol=1e-13 * scale, equal_nan=True)
+                        yield ltag, op.name + '[layout]', case, (None if ok else 'result depends on the memory layout of the operand (non-contiguous coefficient array vs contiguous copy)')
+                    except Exception as e:
+                        yield ltag, op.name + '[layout]', case, 'raises %s for a non-contiguous operand: %s' % (type(e).__name__, str(e)[:100])
                 # ---- C14 operands untouched
                 if 'C14' in want:
                     bad = [i for i, (u, x) in enumerate(zip(us, arrs)) if not numpy.array_equal(u.data, x)]
@@ -153,3 +177,34 @@ def run(rng, tier, want=('C01', 'C10', 'C11', 'C12', 'C13', 'C14')):
                                 for p in range(P): op.npf(chk[d, p])[...] = 7.0
                             if not numpy.array_equal(us2[0].data, chk): fail = 'writing through the view does not update the parent as in NumPy'
                     yield 'C13', op.name + '[view]', case, fail
+
+
+def special_points_pass(rng, tier):
+    """C01 at special base points: zeroth coefficient exactly 0, 1 or -1 (where that lies in the domain of smoothness), generic higher coefficients"""
+    a = native.algopy(); U = a.UTPM
+    for op in optable.table():
+        if op.mp is None or op.nin != 1 or op.kind != 'elementwise': continue
+        lo, hi = op.dom
+        pts = [v for v in (0.0, 1.0, -1.0) if lo <= v <= hi or (op.name in ('exp', 'expm1', 'sin', 'cos', 'sinh', 'cosh', 'tanh', 'arctan', 'square', 'negative', 'erf', 'erfi', 'dawsn', 'expit', 'pow[3]', 'rpow[2]', 'tan') and abs(v) <= 1)]
+        if op.name in ('log', 'sqrt', 'reciprocal', 'pow[2.5]', 'pow[-2]', 'gammaln', 'psi', 'polygamma[1]', 'polygamma[2]'): pts = [1.0]
+        if op.name in ('log1p',): pts = [0.0, 1.0]
+        if op.name.startswith(('absolute', 'sign', 'clip', 'logit', 'hyperu', 'arcsin', 'arccos')): pts = [0.0] if op.name in ('arcsin', 'arccos') else []
+        for x0 in pts:
+            for (D, P) in ((3, 1), (5, 2)) if tier == 'quick' else ((2, 1), (4, 2), (5, 3)):
+                x = optable.gen_input(rng, D, P, (), op.dom, kind=op.kind, name=op.name); x[0] = x0
+                case = {'op': op.name + '[x0=%g]' % x0, 'D': D, 'P': P, 'shapes': [[]]}
+                try:
+                    with numpy.errstate(all='ignore'): r = op.f(U(x.copy()))
+                except Exception as e: yield op.name, case, 'raises %s: %s' % (type(e).__name__, str(e)[:100]); continue
+                fail = None
+                for p_ in range(P):
+                    col = [float(x[d, p_]) for d in range(D)]
+                    try: exp = _mp_oracle(op, col)
+                    except Exception: break
+                    if not all(math.isfinite(v) for v in exp): break
+                    got = [float(r.data[d, p_]) for d in range(D)]
+                    sc = max(1.0, max(abs(v) for v in exp))
+                    for d in range(D):
+                        if not (math.isfinite(got[d]) and abs(got[d] - exp[d]) <= max(op.tol, 1e-8) * sc): fail = 'coefficient %d: got %r, (1/d!) d^d/dt^d f(x(t)) = %r' % (d, got[d], exp[d]); break
+                    if fail: break
+                yield op.name, case, fail
